@@ -8,13 +8,13 @@ CFG = {
         "Parsley.C20.packetP_no_panic", "Parsley.C20.refDecode_iff", "Parsley.C20.refDecode_agrees",
     ],
     "partial": {},
-    "n": {"quick": 1500, "thorough": 40000},
-    "exhaustive": {"quick": True, "thorough": True},
+    "n": {"quick": 1500, "thorough": 60000},
+    "exhaustive": {"quick": False, "thorough": False},   # the input space is infinite; the finite sub-spaces named in `rule` are enumerated completely
     "rule": "corpus first; exhaustive small spaces: all 256 flags bytes x {3-byte, 258-byte (asymmetric length bytes), "
             "zero-length with and without payload} x {last, followed by another sub-message}, all 256 sub-message ids, "
             "boundary length fields x both byte orders x {exact, one byte short, one byte long, followed by an empty "
             "zero-length sub-message}, every truncation of a 3-sub-message datagram, 4 values at each of its first 32 "
-            "bytes, hand-built non-well-formed packets, the size limits (length field 65535, UDP maximum 65507, a 70000-byte "
+            "bytes, every byte string over {00,01,02} of length <= 6 (quick) / <= 8 (thorough) behind a valid header, hand-built non-well-formed packets, the size limits (length field 65535, UDP maximum 65507, a 70000-byte "
             "zero-length payload); then per n: one random well-formed packet (0..5 sub-messages, arbitrary id/flags, payload "
             "0..65535 skewed small, last one zero-length with p=1/3) encoded by the spec (`enc`: implementation must return "
             "exactly that packet) and one single-edit mutation (truncate, overwrite, insert, delete, append, flip the "
